@@ -355,10 +355,10 @@ theorem reader_loop_stopped (cfg : RCfg) (s : RR) (hp : s.phase = .stopped) (es 
   | cons e es ih => simp [rrun, rstep, hp, ih]
 
 /-- the hypotheses are met by a run with a lost connection and a re-initialisation -/
-example : GoodRun {} [(3, 1), (4, 2), (7, 3)] { offset := -1 }
+example : GoodRun {} [(3, 1), (4, 2), (7, 3)] { offset := -2 }
     [.initOk 3 8, .sleepOk, .data [(3, 1)] 4 .eof, .sleepOk, .cutAfter [(4, 2)], .sleepOk, .initOk 3 8, .sleepOk,
      .data [(7, 3)] 8 .timedOut] ∧
-    (rrun {} { offset := -1 }
+    (rrun {} { offset := -2 }
     [.initOk 3 8, .sleepOk, .data [(3, 1)] 4 .eof, .sleepOk, .cutAfter [(4, 2)], .sleepOk, .initOk 3 8, .sleepOk,
      .data [(7, 3)] 8 .timedOut]).msgs = [(3, 1), (4, 2), (7, 3)] := by
   refine ⟨?_, by decide⟩
